@@ -69,6 +69,15 @@ def install(eng):
         e.assign(node.args[0], new, fr)
         return VNONE
 
+    def _defaultdict(e, args, kwargs, fr, node):
+        # collections.defaultdict(list): a dict whose missing keys read as a new empty list that is stored under the key.
+        # Only this factory is modelled; the value becomes a dict of the type the sidecar declares for the local it is bound to
+        f = args[0] if args else None
+        if not (isinstance(f, PyObj) and f.kind == 'builtin' and f.payload is B.b_list) or len(args) != 1 or kwargs:
+            raise Unsupported('defaultdict with a factory other than list')
+        return PyObj('defaultdict_list')
+
+    B.EXTERN['collections.defaultdict'] = _defaultdict
     B.EXTERN['random.shuffle'] = _shuffle
     B.EXTERN['twisted.internet.protocol.Factory.forProtocol'] = lambda e, args, kwargs, fr, node: e.fresh(T.ANY, 'factory')
     B.EXTERN['itertools.cycle'] = _cycle
